@@ -18,7 +18,7 @@ META = dict(
                 'exactly one item per key at completion with reduce (the last fold, or the seed for an empty key), terminator applied once. Seed isolation is what makes the per-key / per-lifetime folds come out right with the shared mutable list seed. '
                 'A one-step form presets the real store to an arbitrary accumulator (NOTSET or a symbolic value) and pushes one OnNextMux / OnCompletedMux through scan_mux. '
                 'Operators defined through scan (count, min, max, to_list, to_array, batch, distinct_until_changed, progress) are compared with their fold definition; dist.update structurally with a stub accumulator (distogram is an external package).',
-    bounds=dict(quick='N <= 4 items (|v| < 2^40), <= 2 keys, <= 2 lifetimes per slot', thorough='N <= 6 items, <= 2 keys'),
+    bounds=dict(quick='N <= 4 items (|v| < 2^40), <= 2 keys, <= 2 lifetimes per slot; long-but-narrow: 20 / 36 successive lifetimes of one scan with mutable seeds (roll(1,1), roll(2,1)), 9 / 17 / 65 groups live at once', thorough='N <= 6 items, <= 2 keys'),
     outside='accumulators that raise (C13); float accumulators (C12); N above the bound',
     assumptions=['distogram replaced by a list-appending stub for dist.update (structure only)'],
     stubs=['distogram stub: update(acc, i) appends, Distogram(**kw) counts constructions'],
